@@ -1,5 +1,5 @@
 """Correspondence for the source-to-Lean translator (gen/py2lean.py) and its run-time library (lean/Asn1/PyLite.lean):
-the *translation* of a function (driver ops KTAG, KLEN, KTOBYTES, KOIDENC, KOIDDEC, KTIME, KREAL, KREALDEC, KDECLEN, KDECTAG, KOCTCHUNK, KSETOF, KCERBOOLENC, KBERBOOLENC, KINTENC, KWREAD, KWMARK, KREADTURN, KEOSTURN, PYBIO, KCRANGE, KCSIZE, KCSINGLE, KCALPHA, KCERBOOL, KWRAP, KINTDEC, KBITSDEC, KBITSFROM, KNULLDEC; PYFROMBYTES) and the function itself in /repo are
+the *translation* of a function (driver ops KTAG, KLEN, KTOBYTES, KOIDENC, KOIDDEC, KTIME, KREAL, KREALDEC, KDECLEN, KDECTAG, KOCTCHUNK, KSETOF, KCERBOOLENC, KBERBOOLENC, KINTENC, KWREAD, KWMARK, KREADTURN, KEOSTURN, PYBIO, KCRANGE, KCSIZE, KCSINGLE, KCALPHA, KCERBOOL, KWRAP, KINTDEC, KBITSDEC, KBITSFROM, KNULLDEC, KBERBOOLDEC; PYFROMBYTES) and the function itself in /repo are
 run on the same arguments; the Python builtins PyLite transcribes (PYOP) are compared with CPython.
 
 A disagreement means the translator or PyLite misrepresents the code (machinery fault to repair) - it is reported as a
@@ -47,7 +47,7 @@ def _py(f, *a, **kw):
     return ('ok', r)
 
 
-def check(rep, drv, seed, n=400, which=('encodeTag', 'encodeLength', 'toBytes', 'oidEncode', 'oidDecode', 'timeCanon', 'realBin', 'realDec', 'decodeLength', 'cerBool', 'wrapTags', 'intDecode', 'decodeTag', 'octetChunks', 'constraintLeaves', 'setOfSort', 'streamWrapper', 'readTurn', 'bitsDecode', 'nullDecode')):
+def check(rep, drv, seed, n=400, which=('encodeTag', 'encodeLength', 'toBytes', 'oidEncode', 'oidDecode', 'timeCanon', 'realBin', 'realDec', 'decodeLength', 'cerBool', 'wrapTags', 'intDecode', 'decodeTag', 'octetChunks', 'constraintLeaves', 'setOfSort', 'streamWrapper', 'readTurn', 'bitsDecode', 'nullDecode', 'berBoolDec')):
     """returns number of cases compared"""
     from pyasn1.codec.ber import encoder as benc, decoder as bdec
     from pyasn1.compat import integer
@@ -785,6 +785,31 @@ def check(rep, drv, seed, n=400, which=('encodeTag', 'encodeLength', 'toBytes', 
                     pass
                 return [s_.tell()]
             cmp_('nullDecode', 'KNULLDEC %d %s' % (ns, ' '.join(str(b) for b in body)), _py(real_n))
+    if 'berBoolDec' in which:
+        import io as _io6
+
+        class CapBo(Exception):
+            pass
+        bodec = bdec.BooleanPayloadDecoder()
+        # what _createComponent hands on: the INTEGER decoder's own _createComponent is where the value arrives
+        orig_cc = bdec.IntegerPayloadDecoder._createComponent
+
+        def real_bo(body):
+            seen = []
+
+            def cap(self, asn1Spec, tagSet, value, **options):
+                seen.append(int(value))
+                return orig_cc(self, asn1Spec, tagSet, value, **options)
+            bdec.IntegerPayloadDecoder._createComponent = cap
+            try:
+                for x in bodec.valueDecoder(_io6.BytesIO(body), None, tagSet=univ.Boolean.tagSet, length=len(body)):
+                    pass
+            finally:
+                bdec.IntegerPayloadDecoder._createComponent = orig_cc
+            return seen[-1:]
+        bodies = [bytes([k]) for k in range(256)] + [b'', b'\x00\x00', b'\x00\x01', b'\x80\x00', b'\xff\xff', b'\x00' * 9 + b'\x01']
+        for body in bodies[:max(40, min(n, len(bodies)))] if n < len(bodies) else bodies:
+            cmp_('berBoolDec', 'KBERBOOLDEC ' + ' '.join(str(b) for b in body), _py(real_bo, body))
     rep.count('kernel_correspondence', done)
     return done + nonlocal_done[0]
 
